@@ -37,7 +37,8 @@ def single_cases(draw, tier):
     start = starts[draw(st.integers(0, len(starts) - 1))]
     n = draw(st.integers(4 * k + 2, 12 * k + 10))
     walk = draw(gens.walks(spec, start, n, n))
-    return {"graph": spec, "start": start, "walk": walk, "check_len": draw(st.sampled_from([0, 0, 1, 4, 8]))}
+    return {"graph": spec, "start": start, "walk": walk, "check_len": draw(st.sampled_from([0, 0, 1, 4, 8])),
+            "heap": draw(st.sampled_from(["1e9", "inf"]))}
 
 
 def all_single_edits(walk, k):
@@ -50,9 +51,10 @@ def all_single_edits(walk, k):
         yield ("D", p, "")
 
 
-def judge(rows, k, start, walk, corrupted, edits, check, has_indel, labels):
+def judge(rows, k, start, walk, corrupted, edits, check, has_indel, labels, heap=1e9):
     """Run one repair and apply the statement.  Returns an error string or None."""
-    result, lookups, _ = repairing.run_repair(rows, k, start, corrupted, check=check, has_indel=has_indel)
+    result, lookups, _ = repairing.run_repair(rows, k, start, corrupted, check=check, has_indel=has_indel,
+                                              heap_size=heap)
     what = "repair_dna(%r, k=%d, start=%d, check=%r, has_indel=%s) [original %r, edits %r]" \
            % (corrupted, k, start, check, has_indel, walk, edits)
     if isinstance(result, str):
@@ -89,7 +91,7 @@ def evaluate_single(case):
     spec = case["graph"]
     k, start, walk = spec["k"], case["start"], case["walk"]
     check = o.ref_vt(walk, case["check_len"]) if case["check_len"] else None
-    labels = ["k=%d" % k, "t=%d" % spec["t"], "check" if check else "no_check"]
+    labels = ["k=%d" % k, "t=%d" % spec["t"], "check" if check else "no_check", "heap=" + case.get("heap", "1e9")]
     repaired = 0
     for edit in all_single_edits(walk, k):
         corrupted = gens.apply_edit(walk, edit)
@@ -99,11 +101,12 @@ def evaluate_single(case):
             sub.append("latency=%d" % (len(states) - edit[1]))
             if len(states) - edit[1] == k - 1:
                 sub.append("latency=k-1")
-        detail = judge(rows, k, start, walk, corrupted, [edit], check, True, sub)
+        heap = float(case.get("heap", "1e9"))
+        detail = judge(rows, k, start, walk, corrupted, [edit], check, True, sub, heap)
         if detail:
             return bad(detail, labels + sub)
         if edit[0] == "S":
-            detail = judge(rows, k, start, walk, corrupted, [edit], check, False, [])
+            detail = judge(rows, k, start, walk, corrupted, [edit], check, False, [], heap)
             if detail:
                 return bad(detail, labels + sub)
         if "detected_all" in sub and "undetectable" not in sub:
@@ -120,10 +123,13 @@ def multi_cases(draw, tier):
     k = spec["k"]
     starts = [v for v, r in enumerate(spec["rows"]) if r]
     start = starts[draw(st.integers(0, len(starts) - 1))]
-    count = draw(st.integers(2, 5))
+    count = draw(st.sampled_from([2, 2, 3, 3, 4, 4, 5, 5, 2, 3, 7, 11, 12, 14]))
+    # the first edit sits near the head; sometimes more than 1,024 clean nucleotides follow before the next one
     positions = [k + draw(st.integers(0, 2 * k))]
-    for _ in range(count - 1):
-        positions.append(positions[-1] + 3 * k + 2 + draw(st.integers(0, 2 * k + 2)))
+    long_gap = draw(st.sampled_from([False] * 11 + [True]))
+    for index in range(count - 1):
+        positions.append(positions[-1] + 3 * k + 2 + draw(st.integers(0, 2 * k + 2))
+                         + (1100 if long_gap and index == 0 else 0))
     n = positions[-1] + 2 * k + 1 + draw(st.integers(0, 2 * k))
     walk = draw(gens.walks(spec, start, n, n))
     only_subs = draw(st.booleans())
@@ -137,8 +143,9 @@ def multi_cases(draw, tier):
         else:
             c = ""
         edits.append([kind, p, c])
+    heap = draw(st.sampled_from(["1e9", "inf"])) if count <= 4 else "1e4"
     return {"graph": spec, "start": start, "walk": walk, "edits": edits,
-            "check_len": draw(st.sampled_from([0, 0, 4, 8]))}
+            "check_len": draw(st.sampled_from([0, 0, 4, 8])), "heap": heap}
 
 
 def evaluate_multi(case):
@@ -157,13 +164,19 @@ def evaluate_multi(case):
     for edit in sorted(edits, key=lambda e: -e[1]):
         corrupted = gens.apply_edit(corrupted, edit)
     check = o.ref_vt(walk, case["check_len"]) if case["check_len"] else None
-    labels = ["k=%d" % k, "edits=%d" % len(edits), "check" if check else "no_check"]
-    detail = judge(rows, k, start, walk, corrupted, edits, check, True, labels)
+    labels = ["k=%d" % k, "edits=%s" % (len(edits) if len(edits) < 6 else ("6-10" if len(edits) <= 10 else "11+")),
+              "check" if check else "no_check", "heap=" + case.get("heap", "1e9")]
+    if n > 1024:
+        labels.append("strand>1024nt")
+    heap = float(case.get("heap", "1e9"))
+    if len(edits) > 4:
+        heap = min(heap, 1e4)  # replayed cases too: never enumerate an astronomically large candidate product
+    detail = judge(rows, k, start, walk, corrupted, edits, check, True, labels, heap)
     if detail:
         return bad(detail, labels)
     if all(e[0] == "S" for e in edits):
         labels.append("subs_only")
-        detail = judge(rows, k, start, walk, corrupted, edits, check, False, [])
+        detail = judge(rows, k, start, walk, corrupted, edits, check, False, [], heap)
         if detail:
             return bad(detail, labels)
     return Outcome(True, "detected_all" in labels, labels)
@@ -174,7 +187,7 @@ SUBCHECKS = [
              floors={"latency=k-1": 100, "kind:S": 150, "kind:I": 150, "kind:D": 150, "k=1": 15, "k=4": 15,
                      "check": 60}, rule=RULE, timeout=300.0),
     SubCheck("separated_edit_sets", evaluate_multi, strategy=multi_cases, examples=(2000, 20000), shards=(16, 16),
-             floors={"detected_all": 300, "subs_only": 300}, rule=RULE, timeout=300.0),
+             floors={"detected_all": 300, "subs_only": 300, "edits=11+": 60, "strand>1024nt": 40, "heap=inf": 200}, rule=RULE, timeout=300.0),
 ]
 
 TECHNIQUE = ("property-based testing (Hypothesis) over generated graphs and walks with complete enumeration of all "
